@@ -121,6 +121,17 @@ structure Adapter (κ : Type) where
   purgeDone : Bool := false
 deriving Repr
 
+/-- `InternalDBOSAdapter.is_replaying()` with a database configured: the journal cursor and nothing else
+(`_get_or_create_journal().is_replaying()`; before the first `wait_for_next_task` the journal is not
+loaded, hence `false`).  The orphan-purge flag plays no part. -/
+def Adapter.isReplaying (a : Adapter κ) : Bool := a.tj.isReplaying
+
+/-- `_ServerInternalRunAdapter.write_to_event_stream`: the events the control loop publishes for a tick
+are appended to the workflow store (and the handler status updated) iff the adapter is not replaying;
+they are forwarded to the inner adapter in either case. -/
+def Adapter.persist {ε : Type} (a : Adapter κ) (store evs : List ε) : List ε :=
+  if a.isReplaying then store else store ++ evs
+
 inductive WaitOut (κ : Type) where
   | replayed (k : κ)           -- replay branch: the recorded task, `advance()`
   | replayTimeout (k : κ)      -- replay branch: the recorded task did not finish within the timeout
@@ -170,6 +181,15 @@ def waitNext [DecidableEq κ] (a : Adapter κ) (db : Db κ) (run : String) (fid 
       else (a1, db1, ⟨.blocked k, false, purged⟩)
     else freshBranch true
   | none => freshBranch false
+
+/-- Replay of a recorded journal by a recovering process, one `wait_for_next_task` call per entry (the
+recorded task is in flight and finishes): the value of `is_replaying()` while the control loop processes
+the tick of each replayed completion, i.e. right after the call that returned it. -/
+def replayFlags [DecidableEq κ] (a : Adapter κ) (db : Db κ) (run : String) : List κ → List Bool
+  | [] => []
+  | k :: ks =>
+    let r := waitNext a db run 0 [k] [k] false none
+    r.1.isReplaying :: replayFlags r.1 r.2.1 run ks
 
 /-! ## Part B — abstract control loop, fresh process, recovery -/
 
